@@ -21,7 +21,17 @@ func MigrateLatest(db *badger.DB, id string) error {
 // MigrationStep is called within an update transaction with the current version.
 // It should update the database state to the next version. The migration step
 // should update the database version with each step.
+//
+// A step that has more to write than fits one transaction returns
+// ErrMigrationStepAgain once it has written its share: the transaction is
+// committed and the step is called again in a new one. Such a step must find
+// its way on a database that it has partly converted already, and it must
+// leave the version alone until it is done.
 type MigrationStep func(txn *badger.Txn) error
+
+// ErrMigrationStepAgain is returned by a MigrationStep that needs another
+// transaction to continue.
+var ErrMigrationStepAgain = errors.New("migration step is not finished")
 
 // Migration handles transforming the database state to the newest version.
 type Migration struct {
@@ -46,8 +56,19 @@ func (m *Migration) error(cause error, version int) MigrationError {
 
 // Migrate performs the migration sequence.
 func (m *Migration) Migrate(db *badger.DB) error {
+	for {
+		again, err := m.migrate(db)
+		if err != nil || !again {
+			return err
+		}
+	}
+}
+
+// migrate runs one transaction of the migration sequence, it returns true if
+// there is more to do.
+func (m *Migration) migrate(db *badger.DB) (again bool, err error) {
 	// Attempt to migrate
-	return db.Update(func(txn *badger.Txn) error {
+	err = db.Update(func(txn *badger.Txn) error {
 		oldVersion, err := getVersion(txn)
 		if err != nil {
 			return m.error(err, oldVersion)
@@ -69,6 +90,11 @@ func (m *Migration) Migrate(db *badger.DB) error {
 		// Migration from oldVersion to m.LatestVersion
 		for v := oldVersion; v < m.LatestVersion; {
 			err := m.Steps[v-m.StartVersion](txn)
+			if err == ErrMigrationStepAgain {
+				// Commit what the step did so far.
+				again = true
+				return nil
+			}
 			if err != nil {
 				return m.error(err, v)
 			}
@@ -86,6 +112,7 @@ func (m *Migration) Migrate(db *badger.DB) error {
 
 		return nil
 	})
+	return again, err
 }
 
 func checkVersion(txn *badger.Txn, assertVersion int) error {
